@@ -204,6 +204,27 @@ func (e *c12Env) run(c c12Case) (obs, bad string) {
 				}
 				s4, _ := otp.NewRawSuite(name)
 				results = append(results, shapeOfLib(s4.Config()).sig())
+			case "ParseURL-variants":
+				// hand-written URLs (mixed-case type, odd labels, failing ones): the caller's *url.URL must come back untouched
+				for i, raw := range []string{"otpauth://TOTP/Iss:acc?secret=JBSWY3DPEHPK3PXP&digits=8", "otpauth://Hotp/I:a?secret=A&algorithm=sha256", "otpauth://tOtP/a%20b:c%2Fd?secret=A&period=60", "otpauth://FOO/I:a?secret=A", "otpauth://totp/nolabel?secret=A", "OTPAUTH://totp/I:a?secret=A", "otpauth://user:pw@TOTP/I:a?secret=A&digits=abc", "otpauth://TOTP:8080/I:a?secret=A#frag"} {
+					pu, err := url.Parse(raw)
+					if err != nil {
+						continue
+					}
+					before, beforeText := *pu, pu.String()
+					var ui url.Userinfo
+					if pu.User != nil {
+						ui = *pu.User
+					}
+					back, perr := otp.ParseOTPAuthURL(pu)
+					results = append(results, fmt.Sprint(i, perr != nil))
+					if back != nil {
+						retain(&kept, op, []string{back.Issuer, back.AccountName, back.Secret})
+					}
+					if pu.String() != beforeText || !reflect.DeepEqual(*pu, before) || (pu.User != nil && *pu.User != ui) {
+						panic(fmt.Sprintf("VERIF-C12: ParseOTPAuthURL modified the caller's URL: %q -> %q (host %q -> %q)", beforeText, pu.String(), before.Host, pu.Host))
+					}
+				}
 			case "suites-parsed":
 				// strings the parser accepts but the registry does not hold, in several spellings, and rejected ones
 				for i, name := range []string{"OCRA-1:HOTP-SHA1-7:QN08", "ocra-1:hotp-sha1-6:qn08", "OCRA-1:HOTP-SHA256-8:QN08-T45S", "OCRA-1:HOTP-SHA512-9:C-QN10-PSHA1-S064-T1H", "OCRA-2:HOTP-SHA1-6:QN08", "OCRA-1:HOTP-SHA1-6:QA08-T1M"} {
@@ -233,6 +254,9 @@ func (e *c12Env) run(c c12Case) (obs, bad string) {
 	}
 	pn := step(c.Op)
 	check := func(when string) string {
+		if strings.HasPrefix(pn, "VERIF-C12: ") {
+			return when + ": " + strings.TrimPrefix(pn, "VERIF-C12: ")
+		}
 		if pn != "" {
 			return "" // panics are C10's concern
 		}
@@ -298,20 +322,13 @@ func (e *c12Env) run(c c12Case) (obs, bad string) {
 	return obs, ""
 }
 
-func clone(b []byte) []byte {
-	if b == nil {
-		return nil
-	}
-	return append([]byte{}, b...)
-}
-
 func c12(r *ev.Run) {
 	e := newC12Env()
 	r.Scenario("caller-data", func(raw []byte) (string, string) { return e.run(unjson[c12Case](raw)) })
 	if ReplayOnly {
 		return
 	}
-	ops := []string{"GenerateOCRA", "ValidateOCRA", "OCRAInput.Validate", "padBytes", "GenerateHOTP", "ValidateHOTP", "GenerateTOTP", "ValidateTOTP", "GenerateURL+Parse", "suites", "suites-parsed", "HexInputToOCRA"}
+	ops := []string{"GenerateOCRA", "ValidateOCRA", "OCRAInput.Validate", "padBytes", "GenerateHOTP", "ValidateHOTP", "GenerateTOTP", "ValidateTOTP", "GenerateURL+Parse", "ParseURL-variants", "suites", "suites-parsed", "HexInputToOCRA"}
 	sliceOps := map[string]bool{"GenerateOCRA": true, "ValidateOCRA": true, "OCRAInput.Validate": true, "padBytes": true}
 	var n, trans int64
 	states := map[string]bool{irt.Digest(true): true}
